@@ -33,6 +33,52 @@ Theorem C02_converse : forall k root g,
 Proof. exact read_is_spec_decode. Qed.
 Print Assumptions C02_converse.
 
+(* CONVERSE, totality: a conformant store IS READ -- the read of a store that structural validation accepts can fail for one
+   reason only, an offset row of a variable-length property pointing outside its data array; `offsets_in_range` (SpecRange.v) is
+   declarative: every row (offset, shape...) of every values table with a data array beside it has product(shape) = 0 or
+   offset + product(shape) <= len(data).  With C04 (validation accepts iff conformant) and C02_converse: a conformant store with
+   offsets in range is read into exactly the graph the specification says it denotes. *)
+From Geff Require Import SpecRange ConverseTotal.
+Theorem C02_converse_total : forall k root,
+  unique_members root -> conformant root ->
+  ((exists g, read_to_memory k (Some root) true None None = Ok g) <-> offsets_in_range root).
+Proof. exact read_total_iff. Qed.
+Print Assumptions C02_converse_total.
+
+Theorem C02_conformant_is_read : forall k root,
+  unique_members root -> conformant root -> offsets_in_range root ->
+  exists g sg, read_to_memory k (Some root) true None None = Ok g /\
+               spec_decode root = Some sg /\ sgraph_eqb sg (of_mgraph g) = true.
+Proof. exact conformant_is_read. Qed.
+Print Assumptions C02_conformant_is_read.
+
+(* the decidable form evaluated by the correspondence check on real stores *)
+Theorem C02_in_range_decidable : forall root, offsets_in_range_b root = true <-> offsets_in_range root.
+Proof. exact offsets_in_range_b_iff. Qed.
+Print Assumptions C02_in_range_decidable.
+
+(* non-vacuity: a conformant store (foreign member beside the geff, a var-length property with a mask) whose rows are in range is
+   read; moving one offset past the end of data keeps it conformant (validation accepts) and makes the read fail *)
+Definition c02_root (off : Z) : znode :=
+  ZG [("geff", AGeff (Some (mkmd true None [("v", mkpm DI8 true None None None)] [] 0%Z)))]
+     [("nodes", ZG [] [("ids", ZA (mkarr DU8 [2%nat] [1; 2]%Z));
+                       ("props", ZG [] [("v", ZG [] [("values", ZA (mkarr DU64 [2%nat; 2%nat] [off; 1; 1; 0]%Z));
+                                                     ("missing", ZA (mkarr DBool [2%nat] [0; 1]%Z));
+                                                     ("data", ZA (mkarr DI8 [1%nat] [7]%Z))])])]);
+      ("edges", ZG [] [("ids", ZA (mkarr DU8 [1%nat; 2%nat] [1; 2]%Z))]);
+      ("foreign", ZG [] [])].
+Example C02_total_nonvacuous :
+  conformant (c02_root 0) /\ offsets_in_range (c02_root 0) /\ is_ok (read_to_memory KObj (Some (c02_root 0)) true None None) = true /\
+  conformant (c02_root 1) /\ ~ offsets_in_range (c02_root 1) /\ read_to_memory KObj (Some (c02_root 1)) true None None = Err ValueError.
+Proof.
+  split; [apply (validate_iff KObj); vm_compute; reflexivity|].
+  split; [apply offsets_in_range_b_iff; vm_compute; reflexivity|].
+  split; [vm_compute; reflexivity|].
+  split; [apply (validate_iff KObj); vm_compute; reflexivity|].
+  split; [intro H; apply offsets_in_range_b_iff in H; vm_compute in H; discriminate|].
+  vm_compute; reflexivity.
+Qed.
+
 (* forward, per property: what the writer stores for ANY well-formed property (every dtype, rank, mask, var-length mix)
    is decoded by the specification decoder into that property (after the float16 upcast) *)
 Theorem C02_forward_prop : forall name n p pm,
